@@ -70,28 +70,48 @@ def fold_cells(N, nchans, delays, tsamp, period, accel, nbins, nints, nbands):
     band = (ci * nbands) // nchans
     frac = np.abs(phase - np.rint(phase))
     amb = bool(np.any((frac < 1e-7 * np.maximum(1.0, np.abs(phase))) & (frac != 0)))
+    # "by time order" / "by channel order": a sample or channel that sits exactly on a boundary of a division that does
+    # not come out even (N/nints, nchans/nbands not integers) may be counted to either side, depending on whether the
+    # quotient is formed exactly or in floating point.  Both readings are kept as candidates - but ONE reading must
+    # explain the whole cube, values and hit counts alike.
+    subs, bands = [sub], [band]
     if N % nints:
-        amb = amb or bool(np.any(((ti * nints) % N == 0) & (ti > 0)))
+        alt = np.floor_divide(ti.astype(np.float64), N / nints).astype(np.int64)  # floor division proper (remainder-based), not floor(a/b)
+        if not np.array_equal(alt, sub) and alt.max() < nints:
+            subs.append(alt)
     if nchans % nbands:
-        amb = amb or bool(np.any(((ci * nbands) % nchans == 0) & (ci > 0)))
-    return sub, band, pbin, amb
+        alt = np.floor_divide(ci.astype(np.float64), nchans / nbands).astype(np.int64)
+        if not np.array_equal(alt, band) and alt.max() < nbands:
+            bands.append(alt)
+    return subs, bands, pbin, amb
 
 
 def fold_oracle(X, delays, tsamp, period, accel, nbins, nints, nbands):
     """X (N, nchans) -> (sum cube float64, count cube int64, ambiguous)."""
     N, nchans = X.shape
-    sub, band, pbin, amb = fold_cells(N, nchans, delays, tsamp, period, accel, nbins, nints, nbands)
-    n = sub.size
-    sums = np.zeros((nints, nbands, nbins), dtype=np.float64)
-    cnts = np.zeros((nints, nbands, nbins), dtype=np.int64)
+    cands, amb = fold_candidates(X, delays, tsamp, period, accel, nbins, nints, nbands)
+    return cands[0][0], cands[0][1], amb
+
+
+def fold_candidates(X, delays, tsamp, period, accel, nbins, nints, nbands):
+    """List of (sums, counts) - one per reading of the boundary assignment (see fold_cells) - and the phase ambiguity flag."""
+    N, nchans = X.shape
+    subs, bands, pbin, amb = fold_cells(N, nchans, delays, tsamp, period, accel, nbins, nints, nbands)
     Xf = X.astype(np.float64)
     size = nints * nbands * nbins
-    for c in range(nchans):
-        vals = Xf[int(delays[c]) : int(delays[c]) + n, c]
-        flat = (np.asarray(sub, dtype=np.int64) * nbands + np.asarray(band[c], dtype=np.int64)) * nbins + np.asarray(pbin, dtype=np.int64)
-        sums += np.bincount(flat, weights=vals, minlength=size).reshape(nints, nbands, nbins)
-        cnts += np.bincount(flat, minlength=size).reshape(nints, nbands, nbins)
-    return sums, cnts, amb
+    out = []
+    for sub in subs:
+        for band in bands:
+            n = sub.size
+            sums = np.zeros((nints, nbands, nbins), dtype=np.float64)
+            cnts = np.zeros((nints, nbands, nbins), dtype=np.int64)
+            for c in range(nchans):
+                vals = Xf[int(delays[c]) : int(delays[c]) + n, c]
+                flat = (np.asarray(sub, dtype=np.int64) * nbands + int(band[c])) * nbins + np.asarray(pbin, dtype=np.int64)
+                sums += np.bincount(flat, weights=vals, minlength=size).reshape(nints, nbands, nbins)
+                cnts += np.bincount(flat, minlength=size).reshape(nints, nbands, nbins)
+            out.append((sums, cnts))
+    return out, amb
 
 
 def cube_from(sums, cnts):
@@ -111,7 +131,7 @@ def same_cube(a, b):
 @st.composite
 def strat_fb(draw, tier):
     nbits = draw(st.sampled_from([8, 32, 8]))
-    nchans = draw(st.integers(1, 12))
+    nchans = draw(st.one_of(st.integers(1, 12), st.sampled_from([10, 14, 16, 20, 24])))
     N = draw(st.integers(200, 400 if tier == "quick" else 800))
     nfiles = draw(st.sampled_from([1, 1, 2, 3]))
     split = [N] if nfiles == 1 else [draw(st.integers(1, N - 1))]
@@ -123,7 +143,9 @@ def strat_fb(draw, tier):
         split = [a, b - a, N - b]
     lay = {"nbits": nbits, "nchans": nchans, "split": split, "data_seed": draw(st.integers(0, 2**31 - 1)),
            "data_kind": "f32int" if nbits == 32 else "full"}
-    nbands = draw(st.integers(1, nchans))
+    # sub-band counts include those that share a factor with nchans without dividing it (a channel then sits exactly on a
+    # sub-band boundary)
+    nbands = draw(st.one_of(st.integers(1, nchans), st.sampled_from([k for k in (4, 6, 10, 12) if k <= nchans] or [1])))
     nints = draw(st.integers(1, 4))
     maxbins = max(2, min(16, (N * nchans) // (nbands * nints * 10)))
     nbins = draw(st.integers(2, maxbins))
@@ -187,7 +209,8 @@ def check_fb(case, ctx):
             raise Violation("fold:second-fold-on-same-reader-differs", ctxt)
         if not same_cube(np.asarray(cube.data), first):
             raise Violation("fold:earlier-cube-modified-by-later-fold", ctxt)
-    sums, cnts, amb = fold_oracle(D, delays, tsamp, period, accel, nbins, nints, nbands)
+    cands, amb = fold_candidates(D, delays, tsamp, period, accel, nbins, nints, nbands)
+    sums, cnts = cands[0]
     require(int(cnts.sum()) == (N - md) * nchans, "oracle:self-check")
     labels = [f"{lay['nbits']}bit"]
     eff_gulp = max(case["gulp"], 2 * md)
@@ -210,7 +233,9 @@ def check_fb(case, ctx):
         tot = np.nansum(cube.data.astype(np.float64) * cnts) if False else None
         return Info(False, tuple(labels))
     want = cube_from(sums, cnts)
-    if not same_cube(cube.data, want):
+    if len(cands) > 1:
+        labels.append("boundary_readings>1")
+    if not any(same_cube(cube.data, cube_from(sm, cn)) for sm, cn in cands):
         got = cube.data
         bad = np.argwhere(~((got == want) | (np.isnan(got) & np.isnan(want))))
         i = tuple(bad[0])
@@ -260,13 +285,16 @@ def check_kernel(case, ctx):
     total = int(count_ar.sum())
     if total != (N - md) * nchans:
         raise Violation("kernel:hit-count-total", f"{ctxt}: counts sum to {total}, samples folded {(N - md) * nchans}")
-    sums, cnts, amb = fold_oracle(D, delays.astype(np.int64), tsamp, period, accel, nbins, nints, nbands)
+    cands, amb = fold_candidates(D, delays.astype(np.int64), tsamp, period, accel, nbins, nints, nbands)
     labels = ["ambiguous"] if amb else []
     if not amb:
-        if not np.array_equal(count_ar.reshape(nints, nbands, nbins), cnts):
-            raise Violation("kernel:hit-counts", f"{ctxt}")
-        if not np.array_equal(fold_ar.reshape(nints, nbands, nbins).astype(np.float64), sums):
-            raise Violation("kernel:sums", f"{ctxt}")
+        got_c = count_ar.reshape(nints, nbands, nbins)
+        got_s = fold_ar.reshape(nints, nbands, nbins).astype(np.float64)
+        # one reading of the boundary assignment must explain the counts AND the sums
+        if not any(np.array_equal(got_c, cn) and np.array_equal(got_s, sm) for sm, cn in cands):
+            if not any(np.array_equal(got_c, cn) for sm, cn in cands):
+                raise Violation("kernel:hit-counts", f"{ctxt}")
+            raise Violation("kernel:sums", f"{ctxt}: the sums do not belong to the same assignment of samples to cells as the hit counts")
     return Info(nblocks >= 2 and not amb, tuple(labels + (["multi_block"] if nblocks >= 2 else [])))
 
 
@@ -311,12 +339,13 @@ def check_ts(case, ctx):
                 cube = ts.fold(period, accel=case["accel"], nbins=case["nbins"], nints=case["nints"])
             except Exception as exc:  # noqa: BLE001
                 raise Violation(f"ts.fold:raised:{type(exc).__name__}", f"{case} fold #{k + 1}: {exc!r}") from exc
-        sums, cnts, amb = fold_oracle(x.reshape(N, 1), np.zeros(1, np.int64), TS, period, case["accel"], case["nbins"], case["nints"], 1)
+        cands_ts, amb = fold_candidates(x.reshape(N, 1), np.zeros(1, np.int64), TS, period, case["accel"], case["nbins"], case["nints"], 1)
+        sums, cnts = cands_ts[0]
         require(cube.data.shape == (case["nints"], 1, case["nbins"]), "ts.fold:shape", f"{cube.data.shape}")
         if amb:
             anyamb = True
         else:
-            if not same_cube(cube.data, cube_from(sums, cnts)):
+            if not any(same_cube(cube.data, cube_from(sm, cn)) for sm, cn in cands_ts):
                 raise Violation("ts.fold:cell-values", f"{case}: fold #{k + 1} on the same TimeSeries (period/tsamp={ratio!r})")
             require(cube.dm == 12.5 and cube.period == period, "ts.fold:recorded")
             occupied = max(occupied, int((cnts.sum(axis=(0, 1)) > 0).sum()))
